@@ -219,7 +219,7 @@ package log
 //@   unchecked frame third-party exporter
 //@   requires c.size >= 1 && c.Exporter != nil
 //@   ghost@entry : chunked = 0
-//@   assert@call Export#* : i == chunked && 0 <= i && i < j && j <= len(records) && j - i <= c.size && len($arg2) == j - i && samearray($arg2, records) && (j == len(records) || j - i == c.size)
+//@   assert@call Export#* : i == chunked && 0 <= i && i < j && j <= len(records) && j - i <= c.size && len($arg2) == j - i && $arg2 === records[i:j] && (j == len(records) || j - i == c.size)
 //@   ghost@call Export#* : chunked = j
 //@   assert@return#2 : chunked == len(records)
 //@   loop#1 invariant n == len(records) && 0 <= i && j == min(i + c.size, n) && chunked == min(i, n)
